@@ -75,6 +75,11 @@ CHECKS = {
              "schemas give equal verdicts on a symbolic probe (discrimination in contrapositive form), and "
              "schema == value iff the value validates.",
         design="4/C15"),
+    "C16": dict(
+        text="Bounded symbolic execution of all four visitors on schema trees in which a solver-chosen subset of the "
+             "first four nodes is replaced by a forwarding CustomSchema: errors (kind, path, object, fields), printed "
+             "form, generated values (same draw tape) and substitution outcome must be identical to the plain tree.",
+        design="4/C16"),
 }
 
 NOT_YET = {
